@@ -926,3 +926,80 @@ def sd17(F, R):
             stores = [bb for bb, ii, s in fn.stmts() if bb in between and bb != init and s["k"] == "Assign" and buf[0] == "var" and s["p"]["l"] == buf[1]]
             R.require(not dirty and not stores, fn, "receive-buffer", "the receive buffer %s is modified between its 0xFF initialisation and the transfer" % tstr(buf), fn.loc(b), okdetail="%s is all 0xFF when handed to transfer_bytes" % tstr(buf))
     R.require(n >= 5, None, "sites", "expected >= 5 receive sites, found %d" % n)
+
+
+@rule("SD18", ["C13", "C12", "C14"], floor=5,
+      doc="driver state is what the caller configured and what the card last said: (a) the AcquireOpts of a driver (use_crc, acquire_retries) are never written after construction - CRC checking cannot silently switch itself off and a retry budget is not used up across calls; (b) when CRC was requested and CMD59 is not answered with R1_IDLE_STATE, acquire fails with CantEnableCRC and sends nothing more; (c) num_blocks / num_bytes answer from a CSD read in this very call (no capacity remembered across a card change)")
+def sd18(F, R):
+    n = 0
+    for fn in F.fns:
+        if not fn.npath.startswith("sdcard::") or fn.npath.startswith("sdcard::proto"):
+            continue
+        for b, i, s in fn.stmts():
+            if s["k"] == "Assign" and s["p"]["proj"]:
+                flds = [e[2] for e in s["p"]["proj"] if e[0] == "field"]
+                if "options" in flds[:-1]:
+                    R.bad(fn, "options-written:" + flds[-1], "%s writes options.%s: the caller's configuration becomes driver state that persists across calls and cards" % (fn.npath.split("::")[-1], flds[-1]), fn.loc(b, i))
+                    n += 1
+    if n == 0:
+        R.ok(None, "options-read-only", "no function of the SD driver stores into its AcquireOpts")
+    # (b)
+    acq = [f for f in F.fns if f.npath.startswith(SD + "::acquire") and any(call_matches(t, ("SdCardInner::card_command",)) for b, t in f.calls())]
+    R.require(len(acq) == 1, None, "acquire-body", "expected the identification sequence in one function / closure")
+    for f in acq:
+        c59 = [(b, t) for b, t in f.calls() if call_matches(t, ("SdCardInner::card_command",)) and cmd_const(f.term_of_operand(t["args"][1], b))[0] == "CMD59"]
+        R.require(len(c59) == 1, f, "cmd59-site", "expected one CMD59 in acquire", f.loc(0))
+        for (b, t) in c59:
+            bad_edges = [(gb, gi) for (gb, gi, g) in all_guards(f) if g.kind == "bool" and g.term[0] == "cmp" and g.term[1] == "Eq" and g.truth is False
+                         and has_sub(g.term[2], lambda q: q[0] == "call" and q[1] and path_matches(q[1], "SdCardInner::card_command") and q[3] == b)]
+            okb = bool(bad_edges)
+            for (gb, gi) in bad_edges:
+                tgt = f.succ(gb)[gi][0]
+                rs = f.reach([tgt])
+                more = [bb for bb, tt in f.calls() if bb in rs and call_matches(tt, ("SdCardInner::card_command", "SdCardInner::card_acmd"))]
+                errs = [x for x in err_returns(f, adt="Error") if x[0] in rs and x[2] == "CantEnableCRC"]
+                okb = okb and not more and bool(errs)
+            R.require(okb, f, "cmd59-refused-is-fatal", "a card that does not accept CMD59 (CRC on) must make acquire fail with CantEnableCRC; the identification sequence goes on instead", f.loc(b))
+    # (c)
+    for nm in ("num_blocks", "num_bytes"):
+        f = F.fn(SD + "::" + nm)
+        for (b, i, v) in ok_returns(f):
+            R.require(guarded(f, b, g_try_ok("SdCardInner::read_csd"))[0], f, "csd-read:" + nm, "%s can answer without reading the card's CSD in this call (a remembered capacity survives a card change)" % nm, f.loc(b, i))
+
+
+@rule("SD19", ["C14"], floor=6,
+      doc="nothing but frames, tokens, data and 0xFF idle bytes is ever driven onto the bus: every write_byte / write_bytes site sends (i) the command frame assembled in card_command, (ii) a data token (write_data's token parameter; STOP_TRAN_TOKEN), (iii) the caller's payload, (iv) the two CRC bytes of write_data, or (v) constant 0xFF filler (flush after an unanswered CMD0); SpiDevice::read (bus-defined filler) is never used")
+def sd19(F, R):
+    n = 0
+    for fn in F.fns:
+        if not fn.npath.startswith("sdcard::") or fn.npath.startswith("sdcard::proto"):
+            continue
+        short = fn.npath.split("::", 2)[-1]
+        for b, t in fn.calls():
+            c = t.get("callee_full", "") or ""
+            if "SpiDevice" in c and (callee_of(t) or "").endswith("::read"):
+                R.bad(fn, "spi-read", "%s uses SpiDevice::read: what the bus clocks out meanwhile is not defined to be 0xFF" % short, fn.loc(b))
+            if not call_matches(t, ("SdCardInner::write_byte", "SdCardInner::write_bytes")):
+                continue
+            n += 1
+            a = strip_refs(fn.term_of_operand(t["args"][1], b))
+            ok = False
+            what = tstr(a)[:60]
+            if a[0] == "c":
+                ok = a[1] == 0xFF or (a[2] and a[2].endswith(("STOP_TRAN_TOKEN", "DATA_START_BLOCK", "WRITE_MULTIPLE_TOKEN")))
+            elif a[0] == "arg":
+                ok = fn.npath.endswith("SdCardInner::write_data")     # token / payload parameters of write_data (their values: SD6)
+            elif a[0] == "var":
+                defs = var_def_terms(fn, a[1])
+                if fn.npath.endswith("SdCardInner::card_command"):
+                    ok = all(d[0] == "agg" and len(d[3]) == 6 for d in defs if d[0] == "agg") and any(d[0] == "agg" for d in defs)
+                elif fn.npath.endswith("SdCardInner::write_data"):
+                    ok = all((d[0] == "call" and d[1] and d[1].endswith("to_be_bytes")) or (d[0] == "agg" and d[3] and all(o[:2] == ("c", 0xFF) for o in d[3])) for d in defs)
+                else:
+                    ok = all((d[0] == "repeat" and d[1][:2] == ("c", 0xFF)) or (d[0] == "agg" and d[3] and all(o[:2] == ("c", 0xFF) for o in d[3])) for d in defs) and bool(defs)
+            elif a[0] == "repeat":
+                ok = a[1][:2] == ("c", 0xFF)
+            elif a[0] == "agg" and a[3]:
+                ok = all(o[:2] == ("c", 0xFF) for o in a[3])
+            R.require(ok, fn, "mosi:" + short.split("::")[-1], "%s drives %s onto the bus: outside command frames, tokens and data the host must hold its data line high (0xFF); anything else is read by the card as start bits of a frame" % (short, what), fn.loc(b))
+    R.require(n >= 6, None, "sites", "expected >= 6 bus write sites, found %d" % n)
